@@ -29,11 +29,13 @@ class _UFMat:
         self.thermal_conductivity = None
         self.calls = []          # (temperature, conductivity, positivity constraint) of every evaluation, in order
         self.last_cond = None
+        self.conds = None
+        self.idx = 0             # which pin of the vector the log follows
 
     def k(self, T):
         out = self._k(T)
         if isinstance(T, np.ndarray):
-            self.calls.append((np.ravel(T)[0], np.ravel(out)[0], self.last_cond))
+            self.calls.append((np.ravel(T)[self.idx], np.ravel(out)[self.idx], self.conds[self.idx] if self.conds else self.last_cond))
         else:
             self.calls.append((T, out, self.last_cond))
         return out
@@ -42,8 +44,10 @@ class _UFMat:
         if self.env.mode == 'sym':
             if isinstance(T, np.ndarray):
                 out = np.empty(T.shape, dtype=object)
+                self.conds = []
                 for i, x in np.ndenumerate(T):
                     out[i] = self._k(x)
+                    self.conds.append(self.last_cond)
                 return out
             v = core.uf('K_' + self.name)(core.toz(T))
             self.last_cond = v > 0
@@ -102,12 +106,24 @@ def body_pin(env):
         h = env.pos('htc', hi=1e7)
         closed = env.params.get('closed_forms', False)
         dz = 0.0125 if closed else env.pos('dz', hi=1)
-        one = (lambda x: np.array([x], dtype=object)) if env.mode == 'sym' else (lambda x: np.array([float(x)]))
+        npin = env.params.get('npin', 1)
+        # with two pins the pin under test is the second one; the first is an independent symbolic pin (a result
+        # written from the first pin into every row would pass a one-pin harness)
+        extra = []
+        if npin == 2:
+            extra = [(0.0 if zero else env.nonneg('q_lin_other', hi=2e5)), env.real('T_cool_other', lo=300, hi=1500), env.pos('htc_other', hi=1e7)]
+            for mat in [m._h_clad, m._h_gap] + list(m.fuel['mat']):
+                if mat is not None:
+                    mat.idx = 1
+
+        def one(x, j):
+            v = ([extra[j]] if extra else []) + [x]
+            return np.array(v, dtype=object) if env.mode == 'sym' else np.array([float(y) for y in v])
         try:
-            t = m.calculate_temperatures(one(q), one(Tc), one(h), dz, atol=1e-3)
+            t = m.calculate_temperatures(one(q, 0), one(Tc, 1), one(h, 2), dz, atol=1e-3)
         except SystemExit:
             env.stop()        # iteration limit reached: error exit (outside the unrolling bound)
-        t = t[0]
+        t = t[npin - 1]
         names = ['coolant', 'clad OD', 'clad MW', 'clad ID', 'fuel surface', 'fuel centre']
         env.eq('column 0 is the local coolant temperature', t[0], Tc)
         if zero:
@@ -229,6 +245,12 @@ def instances(tier):
             inst.append(dict(label='pin-closed-forms[gap=%g,zones=%s]' % (gap, '/'.join(map(str, rf))),
                              body=body_pin, params={'gap': gap, 'r_frac': rf, 'zero_power': False, 'closed_forms': True},
                              max_paths=600, max_depth=(4 if gap > 0 else 5) if tier == 'quick' else 7, timeout_ms=30000))
+    for zero in (False, True):
+        inst.append(dict(label='pin[two pins,gap=0,zones=0.0/0.5%s]' % (',zero power' if zero else ''), body=body_pin,
+                         params={'gap': 0.0, 'r_frac': (0.0, 0.5), 'zero_power': zero, 'npin': 2}, max_paths=600, max_depth=6, timeout_ms=20000))
+    inst.append(dict(label='pin-closed-forms[two pins,gap=0,zones=0.2/0.6]', body=body_pin,
+                     params={'gap': 0.0, 'r_frac': (0.2, 0.6), 'zero_power': False, 'closed_forms': True, 'npin': 2},
+                     max_paths=600, max_depth=6, timeout_ms=30000))
     for n in (2, 3):
         inst.append(dict(label='pin-coolant-average[rings=%d]' % n, body=body_coolant_avg, params={'n_ring': n}))
     return inst
@@ -245,7 +267,7 @@ def main():
                      'identity, film / clad / gap (conduction + radiation) / fuel-shell closed forms with the logged conductivity evaluations, '
                      'and the pin-adjacent coolant average are SMT queries.'),
         bounds={'fuel zones': '1..2 (quick) / 1..3, solid and annular', 'gap': '0 and 20 micron with radiation',
-                'iterations': 'fork depth 5 (quick) / 8 over all conductivity loops', 'pins': 1,
+                'iterations': 'fork depth 5 (quick) / 8 over all conductivity loops', 'pins': '1, and 2 (the second pin is the one under test)',
                 'dz': 'symbolic for ordering / zero power / film; 0.0125 m in the closed-form instances (it enters only as q = q\' dz and cancels)'},
         outside=['"conductivity at the reported temperatures" is taken as: the mean of the evaluations at the outer temperature and at the '
                  'previous inner iterate, which differs from the reported inner temperature by at most atol (the loop exit condition); '
